@@ -12,6 +12,7 @@ from pbt.props import c18
 from pbt.runtime import Ctx, Labels, Part, require
 
 PROP = "C19"
+WARM_LEGACY = True  # first-use order of the legacy classes differs between shards
 RULE = (
     "a C18 program prefix (up to 20 successful-by-construction operations) followed by 1-3 "
     "operations constructed to be rejected, the rejection arising at a drawn point: constructor / "
@@ -83,6 +84,11 @@ def do_rejected(r: c18.Runner, o: list, lab: Labels) -> str:
             k = c % (len(ok) + 1)
             lab.tag_if(k > 0, "after-processed-children")
             lab.tag_if(any(g.detached for g in ok[:k]), "after-detached-child-was-attached")
+            if c % 3 == 2:  # the colliding child sits in the field added by the subclass
+                lab.tag("collision-in-subclass-field")
+                return L.cls("LInnerX")(items=tuple(ok), extra=x, origin=w.origin(0))
+            if c % 3 == 1:
+                return L.cls("LInner")(items=tuple(ok[:k]), oseq=(x, *ok[k:]), origin=w.origin(0))
             return L.cls("LInner")(items=(*ok[:k], x, *ok[k:]), origin=w.origin(0))
         if kind == "ctor_grandchild_collision":
             stale = _stale_parent_with_attached_child(w)
@@ -195,9 +201,18 @@ def do_rejected(r: c18.Runner, o: list, lab: Labels) -> str:
             lab.tag("attached-receiver")
             lab.tag_if(t is not n, "after-processed-children")
             world = w
+            # optionally remove an element visited before the failing node (its removal must be undone too)
+            anc_ids = {id(a) for a in w.ancestors_of(t)} | {id(t)}
+            before_t = targets[: targets.index(t)]
+            removable = [y for y in before_t if id(y) not in anc_ids and y.parent_field is not None
+                         and y.parent_field.name in ("items", "lst", "oseq", "opt", "extra")]
+            rid = removable[c % len(removable)].id if removable and c % 2 else None
+            lab.tag_if(rid is not None, "removal-before-failure")
 
             class V(ASTTransformVisitor):
                 def generic_visit(self, node):  # noqa: ANN001
+                    if rid is not None and node.id == rid:
+                        return None
                     if node.id == tid:
                         if kind == "transform_raises":
                             raise RuntimeError("rule failed")
